@@ -43,3 +43,6 @@ mod tls_listener;
 mod tunnel;
 mod udp_forwarder;
 mod udp_pipe;
+
+#[cfg(feature = "verif")]
+pub mod verif;
